@@ -199,31 +199,54 @@ def _gen_retarget(rng, tier):
                "time_differential": rng.choice([rng.randrange(0, 6 * _TW), rng.randrange(_TW // 4 - 3, _TW // 4 + 3), rng.randrange(4 * _TW - 3, 4 * _TW + 3)])}
 
 
-# retarget: previous target valid under the mainnet/testnet limit (the only limit helper.MAX_TARGET knows)
-contract("buidl.helper.calculate_new_bits", props=P,
-         params={"previous_bits": "bytes:4", "time_differential": "int"},
-         requires=["not spec.spv.compact_negative(spec.int_le(previous_bits))",
-                   "not spec.spv.compact_overflow(spec.int_le(previous_bits))",
-                   "0 < spec.spv.compact_to_target(spec.int_le(previous_bits)) <= spec.spv.POW_LIMIT_MAINNET"],
-         ensures=["returns()",
-                  "result == spec.spv.retarget_bytes(previous_bits, time_differential, spec.spv.POW_LIMIT_MAINNET)"],
-         gen=_gen_retarget)
+def _with_parts(gen):
+    def g(rng, tier):
+        for d in gen(rng, tier):
+            pb = d.pop("previous_bits")
+            d["mantissa3"], d["exponent"] = pb[:3], pb[3]
+            yield d
+    return g
 
-# the same for the realistic range: previous nBits with a full 3-byte mantissa position (exponent >= 4),
-# where every intermediate target is >= 2**16 (separates the retarget formula from the small-target
-# encoding defect of target_to_bits)
-contract("buidl.helper.calculate_new_bits#normal", props=P,
-         params={"previous_bits": "bytes:4", "time_differential": "int"},
-         requires=["not spec.spv.compact_negative(spec.int_le(previous_bits))",
-                   "4 <= previous_bits[3] <= 0x1d",
-                   "spec.int_le(previous_bits[:3]) >= 0x008000",
-                   "spec.spv.compact_to_target(spec.int_le(previous_bits)) <= spec.spv.POW_LIMIT_MAINNET"],
+
+# retarget (pow.cpp CalculateNextWorkRequired) with the mainnet/testnet limit, the only one helper.MAX_TARGET
+# knows.  previous_bits = mantissa3 || exponent, exponent forked over 1..0x1d.
+# (a) every valid previous nBits (0 < target <= powLimit): concrete only -- the small-target classes of
+#     target_to_bits, which this composes with, cost minutes each (see target_to_bits#n*)
+contract("buidl.helper.calculate_new_bits", props=P,
+         ghost={"mantissa3": "bytes:3", "exponent": ("choice", list(range(0, 0x1e)))}, params={"time_differential": "int"},
+         setup=ValueOf("mantissa3 + bytes([exponent])", "previous_bits"), args=["previous_bits", "time_differential"],
+         requires=["not spec.spv.compact_negative(%s)" % _COMPACT,
+                   "0 < spec.spv.compact_to_target(%s) <= spec.spv.POW_LIMIT_MAINNET" % _COMPACT],
          ensures=["returns()",
                   "result == spec.spv.retarget_bytes(previous_bits, time_differential, spec.spv.POW_LIMIT_MAINNET)"],
-         gen=_gen_retarget)
+         tiers=(), gen=_with_parts(_gen_retarget))
+
+# (b) the range in which difficulty lives: exponent >= 4 and a normalised mantissa (>= 0x008000, what GetCompact
+#     produces), so every intermediate target is >= 2**21 -- separates the retarget formula and its clamps from
+#     the small-target encoding defect of target_to_bits.  Symbolic.
+contract("buidl.helper.calculate_new_bits#normal", props=P,
+         ghost={"mantissa3": "bytes:3", "exponent": ("choice", list(range(4, 0x1e)))}, params={"time_differential": "int"},
+         setup=ValueOf("mantissa3 + bytes([exponent])", "previous_bits"), args=["previous_bits", "time_differential"],
+         requires=["0x008000 <= spec.int_le(mantissa3) < 0x800000",
+                   "spec.spv.compact_to_target(%s) <= spec.spv.POW_LIMIT_MAINNET" % _COMPACT],
+         ensures=["returns()",
+                  "result == spec.spv.retarget_bytes(previous_bits, time_differential, spec.spv.POW_LIMIT_MAINNET)"],
+         gen=_with_parts(_gen_retarget))
 
 
 # ---------------------------------------------------------------------------- Block.target / check_pow
+from verif.pyvc.values import mk_bytes, as_chunks  # noqa: E402
+
+
+def bits_kind(exps):
+    """nBits field = symbolic 3-byte mantissa || exponent byte forked over `exps`"""
+    def mk(m, name):
+        mant = m.make_sym(name + ".mantissa", "bytes:3")
+        e = m.make_sym(name + ".exponent", ("choice", list(exps)))
+        return mk_bytes(as_chunks(mant) + [bytes([e])])
+    return mk
+
+
 def _blk(rng, bits):
     return {"__class__": "buidl.block.Block", "fields": {
         "version": rng.getrandbits(32), "prev_block": _h(rng), "merkle_root": _h(rng),
@@ -235,10 +258,13 @@ def _gen_block_bits(rng, tier):
         yield {"self": _blk(rng, d["bits"])}
 
 
-_BLOCK = obj("buidl.block.Block", version=U32, prev_block=H32, merkle_root=H32, timestamp=U32, bits="bytes:4", nonce="bytes:4")
+def _block(exps):
+    return obj("buidl.block.Block", version=U32, prev_block=H32, merkle_root=H32, timestamp=U32, bits=bits_kind(exps), nonce="bytes:4")
+
+
 _HDR = "spec.header80(self.version, self.prev_block, self.merkle_root, self.timestamp, self.bits, self.nonce)"
 
-contract("buidl.block.Block.target", props=P, params={"self": _BLOCK},
+contract("buidl.block.Block.target", props=P, params={"self": _block(range(0, 36))},
          requires=["not spec.spv.compact_negative(spec.int_le(self.bits))",
                    "not spec.spv.compact_overflow(spec.int_le(self.bits))"],
          ensures=["returns()", "isinstance(result, int)",
@@ -251,7 +277,7 @@ def _gen_pow(rng, tier):
     bl = [bytes.fromhex("ffff7f20"), bytes.fromhex("ffff001d"), bytes.fromhex("00008020"), bytes.fromhex("ffffff20"),
           bytes.fromhex("ffff0021"), bytes.fromhex("ff000022"), bytes.fromhex("ffff0022"), bytes.fromhex("ffff0023"),
           bytes.fromhex("00000020"), bytes.fromhex("01000002"), bytes.fromhex("00010001"), bytes.fromhex("ffff7f1f"),
-          bytes.fromhex("ffff7f21"), bytes.fromhex("010000ff"), bytes.fromhex("000080ff")]
+          bytes.fromhex("ffff7f21"), bytes.fromhex("010000ff"), bytes.fromhex("000080ff"), bytes.fromhex("01008020")]
     for k in range(3000):
         yield {"self": _blk(rng, bl[k % len(bl)])}
 
@@ -259,7 +285,7 @@ def _gen_pow(rng, tier):
 # consensus CheckProofOfWork.  Block has no network, so the claim is the sandwich that holds for every
 # network: valid under the strictest limit (mainnet) => accepted; accepted => valid under the most
 # permissive limit (regtest: 2**255 - 1)
-contract("buidl.block.Block.check_pow", props=P, params={"self": _BLOCK},
+contract("buidl.block.Block.check_pow", props=P, params={"self": _block(range(0, 37))},
          ensures=["returns()",
                   "implies(spec.spv.header_pow_ok(%s, spec.spv.POW_LIMIT_MAINNET), result == True)" % _HDR,
                   "implies(result, spec.spv.header_pow_ok(%s, spec.spv.POW_LIMIT_REGTEST))" % _HDR,
@@ -295,7 +321,7 @@ def _gen_chain(n):
                 if i == bad and mode == 3:
                     want = False
                 if i == bad and mode == 4:
-                    bits, want = bytes.fromhex("00008020"), False
+                    bits, want = bytes.fromhex("01008020"), False
                 if i == bad and mode == 5:
                     bits, want = bytes.fromhex("ffff0023"), False
                 p = prev
@@ -310,15 +336,18 @@ def _hdr(x):
     return "spec.header80(%s.version, %s.prev_block, %s.merkle_root, %s.timestamp, %s.bits, %s.nonce)" % ((x,) * 6)
 
 
+# chains of 1..3 headers: the loop of is_valid is about linkage and about calling check_pow on every header;
+# nBits exponents restricted to two representative values per header here (check_pow has its own contract)
 for _n in (1, 2, 3):
     _hs = [_hdr(nm) for nm in _NAMES[:_n]]
     _list = "[" + ", ".join(_hs) + "]"
     contract("verif.harness.spv.headers_valid%d" % _n, props=P,
-             params={nm: _BLOCK for nm in _NAMES[:_n]},
+             params={nm: _block([0x1d, 0x20]) for nm in _NAMES[:_n]},
              ensures=["returns()",
                       "implies(result, spec.spv.chain_linked(%s))" % _list,                               # linkage (sound)
                       "implies(result, spec.spv.chain_valid(%s, spec.spv.POW_LIMIT_REGTEST))" % _list,     # PoW (sound)
-                      "implies(spec.spv.chain_valid(%s, spec.spv.POW_LIMIT_MAINNET), result == True)" % _list],  # complete
+                      "implies(spec.spv.chain_valid(%s, spec.spv.POW_LIMIT_MAINNET), result == True)" % _list,  # complete
+                      "implies(not spec.spv.chain_linked(%s), result == False)" % _list],
              gen=_gen_chain(_n))
 
 
